@@ -355,6 +355,10 @@ class EPoll(BasePoller):
             self._map[fileno] = fd
         else:
             super().discard(fd)
+            # no interest left: forget the descriptor (it may be closed by
+            # now, so look it up by value rather than by fileno)
+            for key in [k for k, v in list(self._map.items()) if v == fd]:
+                del self._map[key]
 
     def addReader(self, source, fd):
         super().addReader(source, fd)
